@@ -411,13 +411,12 @@ fn build_clone_for_enum(
         });
     }
     let wheres = wcb.build(|ty| quote!(#ty : #trait_));
+    let clone_body = match_self(variants, quote!(#(#arms_clone,)*));
     Ok(quote! {
         #[automatically_derived]
         impl #impl_g #trait_ for #this_ty #wheres {
             fn clone(&self) -> Self {
-                match self {
-                    #(#arms_clone,)*
-                }
+                #clone_body
             }
             fn clone_from(&mut self, source: &Self) {
                 match (self, source) {
@@ -548,13 +547,12 @@ fn build_debug_for_enum(
         arms.push(quote!(#pat => #expr));
     }
     let wheres = wcb.build(|ty| quote!(#ty : #trait_));
+    let fmt_body = match_self(variants, quote!(#(#arms,)*));
     Ok(quote! {
         #[automatically_derived]
         impl #impl_g #trait_ for #this_ty #wheres {
             fn fmt(&self, f: &mut ::core::fmt::Formatter) -> ::core::fmt::Result {
-                match self {
-                    #(#arms,)*
-                }
+                #fmt_body
             }
         }
     })
@@ -787,6 +785,15 @@ fn build_deref_for_struct(
     })
 }
 
+/// `match self { arms }`. An enum without variants has to be matched by value (`match *self {}`),
+/// since a reference is always inhabited.
+fn match_self(variants: &[VariantEntry], arms: TokenStream) -> TokenStream {
+    if variants.is_empty() {
+        quote!(match *self {})
+    } else {
+        quote!(match self { #arms })
+    }
+}
 fn with_ref(source: &impl ToTokens, is_ref: bool) -> TokenStream {
     if is_ref {
         quote!(&#source)
